@@ -38,7 +38,7 @@ def gen_case(rng):
     for i in range(rng.choice([0, 1, 3, 6, 10, 14])):
         t = edge_ts(rng) if rng.random() < 0.85 else None
         rows.append((i + 1, t, rng.choice([None, "a", "b"]), rng.choice([None, 0, 1, 5, -2])))
-    base_ts = rng.choice(["hour", "day", "hour", "month"])
+    base_ts = rng.choice(["hour", "day", "week", "week", "month", "quarter", "year"])
     dims = []
     for _ in range(rng.choice([1, 2, 2, 3])):
         col = rng.choice(["ts", "ts", "dd", "tx"])
